@@ -11,7 +11,7 @@ import (
 )
 
 func init() {
-	register("C06", "Decides structural conditions of gateway transparency in package federation: mergeSameAlias merges the sub-selections and fragments of same-alias selections without any name/alias-keyed de-duplication (identity only); planObject keeps a selection local exactly when the selected service is the current one and otherwise routes it to that service's sub-plan, selectService only returns a service that serves the field, and the _federation key selection is added whenever another service is involved; extractKeys collects results and keys in lock step, execute stitches result i into target i (induction index, behind the length-equality test) and never overwrites an existing key; one planner snapshot per request (getPlanner only in Execute); Syncer.planner and Executor.Executors are accessed only under plannerMu; only keys federated for the target service are sent to it; a null on the way to a hop is tolerated uniformly (leaf step like inner steps). Directive handling is C19, fragment-walk complexity C15. Not decided: equality with a monolith for all partitions and data, behaviour of remote services, the arbitrary choice among equal candidate services.", c06)
+	register("C06", "Decides structural conditions of gateway transparency in package federation: mergeSameAlias merges the sub-selections and fragments of same-alias selections without any name/alias-keyed de-duplication (identity only) and copies a group's selection set before its first append, resetting the copied-flag whenever a new alias group starts; runOnService sends one key object per parent in the parents' order and returns the service's answer list unchanged; planObject keeps a selection local exactly when the selected service is the current one and otherwise routes it to that service's sub-plan, selectService only returns a service that serves the field, and the _federation key selection is added whenever another service is involved; extractKeys collects results and keys in lock step, execute stitches result i into target i (induction index, behind the length-equality test) and never overwrites an existing key; one planner snapshot per request (getPlanner only in Execute); Syncer.planner and Executor.Executors are accessed only under plannerMu; only keys federated for the target service are sent to it; a null on the way to a hop is tolerated uniformly (leaf step like inner steps). Directive handling is C19, fragment-walk complexity C15. Not decided: equality with a monolith for all partitions and data, behaviour of remote services, the arbitrary choice among equal candidate services.", c06)
 }
 
 const fed = "federation"
@@ -317,7 +317,6 @@ func c06(c *an.Ctx) {
 
 	c.Check("R-GUARD", "planObject: local iff selected service == current service; other selections go to that service's sub-plan; _federation key added when another service is involved", 4, func(o *an.O) {
 		fn := c.NeedFunc(fed, "(*Planner).planObject")
-		service := fn.Params[3].Name()
 		var sel ssa.Value
 		for _, call := range an.Calls(fn, an.Mod(fed, "Planner", "selectService")) {
 			sel = extractOf(call.(ssa.Value), 0)
@@ -334,33 +333,43 @@ func c06(c *an.Ctx) {
 			if !ok || b.Name() != "append" || !isSingleElementSlice(call.Call.Args[1]) {
 				return
 			}
-			tgt := an.Expr(call.Call.Args[0])
+			// only appends of the selection being planned (the element of the loop over the object's selections)
+			if !strings.HasSuffix(call.Type().String(), "graphql.Selection") {
+				return
+			}
 			gs := an.GuardStrings(i.Block())
-			has := func(s string) bool {
-				for _, g := range gs {
-					if g == s {
-						return true
+			svc := ssa.Value(fn.Params[3])
+			isEq, isNe := false, false
+			for _, g := range an.GuardsOf(i.Block()) {
+				bo, ok := g.Cond.(*ssa.BinOp)
+				if !ok || (bo.Op != token.EQL && bo.Op != token.NEQ) {
+					continue
+				}
+				if (bo.X == sel && bo.Y == svc) || (bo.X == svc && bo.Y == sel) {
+					if (bo.Op == token.EQL) == g.Polarity {
+						isEq = true
+					} else {
+						isNe = true
 					}
 				}
-				return false
 			}
-			eq := "(" + an.Expr(sel) + " == " + service + ")"
-			ne := "(" + an.Expr(sel) + " != " + service + ")"
 			switch {
-			case strings.HasPrefix(tgt, "phi:localSelections") || tgt == "localSelections":
-				o.Site(i)
-				nLocal++
-				if !has(eq) && !strings.Contains(strings.Join(gs, " "), `== "__typename")`) {
-					o.FailAt(i, "a selection is kept in the local plan without the selected service being the current one (guards %v): a field this service does not serve would be sent to it", gs)
-				}
 			case isLookupOfSelectionMap(call.Call.Args[0]):
 				o.Site(i)
 				nRemote++
-				if !has(ne) && !has("!"+eq) {
+				if !isNe {
 					o.FailAt(i, "a selection is routed to another service although the current one was selected (guards %v)", gs)
 				}
 				if lk, ok := call.Call.Args[0].(*ssa.Lookup); ok && lk.Index != sel {
 					o.FailAt(i, "the selection is routed to %s, not to the service selectService chose", an.Expr(lk.Index))
+				}
+			case an.LoopHeaderOf(i) != nil && an.LoopHeaderOf(i) == an.LoopHeaderOf(sel.(ssa.Instruction)) || loopEncloses(sel, i):
+				// the list of selections kept for the current service (identified by role: a plain
+				// slice grown inside the loop that selects a service for each selection)
+				o.Site(i)
+				nLocal++
+				if !isEq && !strings.Contains(strings.Join(gs, " "), `== "__typename")`) {
+					o.FailAt(i, "a selection is kept in the local plan without the selected service being the current one (guards %v): a field this service does not serve would be sent to it", gs)
 				}
 			}
 		})
@@ -712,4 +721,23 @@ func pkgConstString(p *an.Prog, rel, name string) string {
 		return ""
 	}
 	return constStr(sp, name)
+}
+
+
+// loopEncloses: instruction i lies in the loop that computes v (or v dominates it within one).
+func loopEncloses(v ssa.Value, i ssa.Instruction) bool {
+	vi, ok := v.(ssa.Instruction)
+	if !ok {
+		return false
+	}
+	hv := an.LoopHeaderOf(vi)
+	if hv == nil {
+		return false
+	}
+	for _, h := range an.EnclosingLoops(i) {
+		if h == hv {
+			return true
+		}
+	}
+	return false
 }
